@@ -438,12 +438,15 @@ func rulesC06(c *Ctx) {
 	usesFirst, usesCont := false, false
 	for _, b := range inq.Blocks {
 		for _, in := range b.Instrs {
-			if call, ok := in.(*ssa.Call); ok && call.Call.StaticCallee() != nil {
-				switch call.Call.StaticCallee().Name() {
-				case "isIdentFirstChar":
-					usesFirst = true
-				case "isIdentChar":
-					usesCont = true
+			// called directly or taken as a function value and called later
+			for _, op := range in.Operands(nil) {
+				if fn, ok := (*op).(*ssa.Function); ok {
+					switch fn.Name() {
+					case "isIdentFirstChar":
+						usesFirst = true
+					case "isIdentChar":
+						usesCont = true
+					}
 				}
 			}
 		}
